@@ -157,7 +157,7 @@ func (d DDoc) Render(opt RenderOpt) string {
 
 // ---- alphabets ----
 
-var D822Firsts = []string{"", "v", "v w", "v: w", "#v"}
+var D822Firsts = []string{"", "v", "v w", "v: w", "#v", "é\tz"}
 
 var D822ContLines = []DLine{
 	{' ', "x"}, {'\t', "x"}, {' ', " indented"}, {'\t', " indented"}, {' ', "."}, {'\t', "."}, {' ', "x  "}, {' ', "y: z"},
@@ -201,4 +201,4 @@ func D822RepFields(name string) []DField {
 	}
 }
 
-var D822Names = []string{"A", "B-c", "X", "Long-Name9"}
+var D822Names = []string{"A", "B-c", "X", "Long-Name9", "X-é", "9"}
